@@ -74,10 +74,21 @@ Theorem C12_wad_pow_fails_iff : forall x e, MIN128 <= x <= MAX128 -> 0 <= e < 2 
 Proof. exact wad_pow_fails_iff. Qed.
 Print Assumptions C12_wad_pow_fails_iff.
 
-(* The executable monitor (the property as a boolean over observed calls) accepts
-   every trace of the model; it is what is run on the implementation's traces. *)
+(* checked_pow never traps (its only failure mode is None); together with the definition of pow
+   (unwrap-or-panic of checked_pow) this is the whole content of "pow fails exactly when
+   checked_pow returns no value". *)
+Theorem C12_wad_checked_pow_never_traps : forall x e, MIN128 <= x <= MAX128 -> 0 <= e < 2 ^ 32 ->
+  wad_checked_pow x e <> Fail.
+Proof. exact wad_checked_pow_no_trap. Qed.
+Print Assumptions C12_wad_checked_pow_never_traps.
+
+(* The executable monitor (the property as a boolean over observed calls, written from exact
+   rational arithmetic, independent of the model) accepts every trace of the model on well-formed
+   call lists (inputs in range; every WadPow x e directly preceded by WadCPow x e - the trace
+   format the harness emits and the monitor itself enforces). It is what is run on the
+   implementation's traces. *)
 Theorem C12_monitor_accepts_model : forall cs : list call,
-  forallb in_range_call cs = true -> check (map model_obs cs) = (0%N, 0%N, 0%N).
+  wf_calls cs = true -> check (map model_obs cs) = (0%N, 0%N, 0%N).
 Proof. exact check_accepts_model. Qed.
 Print Assumptions C12_monitor_accepts_model.
 
@@ -88,4 +99,22 @@ Example C12_phantom_overflow :
   checked_mul_div128 Truncate MIN128 1 (-1) = Ok None /\
   mul_div128 Floor (-7) 1 2 = Ok (-4) /\ mul_div128 Ceil (-7) 1 2 = Ok (-3) /\
   mul_div128 Truncate (-7) 1 2 = Ok (-3).
+Proof. vm_compute. repeat split. Qed.
+
+(* non-vacuity for the I256, Wad and pow statements *)
+Example C12_i256_nonvacuous :
+  mul_div256 Floor MAX256 1 2 = Ok (MAX256 / 2) /\ mul_div256 Ceil (-7) 1 2 = Ok (-3) /\
+  checked_mul_div256 Truncate MIN256 1 (-1) = Fail /\ checked_mul_div256 Floor 5 5 0 = Ok None.
+Proof. vm_compute. repeat split. Qed.
+Example C12_wad_nonvacuous :
+  wad_checked_mul (3 * 10 ^ 18) (5 * 10 ^ 17) = Ok (Some (15 * 10 ^ 17)) /\
+  wad_checked_mul MAX128 MAX128 = Ok None /\ wad_checked_div 1 0 = Ok None /\ wad_checked_div 0 0 = Ok None /\
+  wad_from_ratio 1 3 = Ok 333333333333333333 /\ wad_from_ratio (-1) 3 = Ok (-333333333333333333) /\
+  wad_from_ratio 1 0 = Fail.
+Proof. vm_compute. repeat split. Qed.
+Example C12_pow_nonvacuous :
+  wad_pow (2 * 10 ^ 18) 10 = Ok (1024 * 10 ^ 18) /\ wad_checked_pow (2 * 10 ^ 18) 200 = Ok None /\
+  wad_pow (2 * 10 ^ 18) 200 = Fail /\ wad_checked_pow 5 0 = Ok (Some (10 ^ 18)) /\
+  wf_calls [WadCPow (2 * 10 ^ 18) 10; WadPow (2 * 10 ^ 18) 10] = true /\
+  wf_calls [WadPow (2 * 10 ^ 18) 10] = false.
 Proof. vm_compute. repeat split. Qed.
